@@ -93,6 +93,13 @@ def run(rep, tier, seed):
                                 "perm": list(p), "base_rules": [ruledrv.lit_rule(r) for r in rrs]}
             rep.note_case(repr((prr, doc)), nontrivial=e["ntested"] > 0)
     ruledrv.judge(rep, events, recipes, ruledrv.default_key)
+    from harness import repotrace
+
+    def fill(i):
+        b = ruledrv.blank(i, "validate_proj")
+        b["projs"] = []
+        return b
+    repotrace.judge(rep, "validate_proj", "Trace_Rule", fill)
     for e in events[:: max(1, len(events) // 2)][:2]:
         rep.sample({"src": recipes[e["id"]], "valid": e["valid"], "nfail": e["nfail"], "ntested": e["ntested"], "order": e["order"]})
     rep.rule = (f"leg B: {nschemas} seeded cast-free schemas of 0..6 rules (duplicates, equal path lengths) x all (<= 4 rules) or "
